@@ -104,6 +104,25 @@ pub fn short_hex(h: &[u8; 32]) -> String {
 }
 
 pub fn smoke(mode: &str) -> i32 {
+    if mode == "patch" {
+        use copia::Sync as _;
+        let basis = vec![7u8; 5000];
+        let mut source = basis.clone();
+        source.extend_from_slice(b"tail");
+        let sig = copia::Signature::generate(&mut &basis[..], 512).unwrap();
+        let delta = copia::CopiaSync::new().delta(&source[..], &sig).unwrap();
+        let mut w = World::new();
+        let t = w.clock_ns;
+        w.host("local").put_file("/w/basis", &basis, t);
+        w.host("local").put_file("/w/d.delta", &bincode::serialize(&delta).unwrap(), t);
+        w.host("local").mkdir_p("/home/u", t);
+        let out = run_one(w, RunCfg::default(), "copia", "local", &sv(&["copia", "patch", "/w/basis", "/w/d.delta", "-o", "/w/out"]), env_of(&[("HOME", "/home/u")]));
+        for r in &out.trace {
+            println!("{} p{} {:?} {} ok={} n={}", r.seq, r.pid, r.kind, r.path, r.ok, r.bytes);
+        }
+        println!("exit={:?} out len={:?}", out.procs[0].exit, out.world.fs("local").get_file("/w/out").map(|b| b.len()));
+        return 0;
+    }
     let mut w = World::new();
     let t = w.clock_ns - 5_000_000_000;
     for h in ["local", "remote"] {
